@@ -245,7 +245,7 @@ def transparency_case(ctx, case):
             continue
         ctx.count('compared')
         if res[0] != res[1]:
-            ctx.violation('%s:transparency:%s:%s:%s' % (PROP, case['kind'], case['with_const'].split()[0], 'c' if comp else 'u'),
+            ctx.violation('%s:transparency:%s:%s:%s' % (PROP, case['kind'], case['with_const'].split()[0] if '\n' not in case['with_const'] else 'program', 'c' if comp else 'u'),
                           '%r with %s gives %s, the literal %r gives %s (compress=%s)' % (case['with_const'], case['defs'], res[0].hex() if isinstance(res[0], bytes) else res[0],
                                                                                            case['literal'], res[1].hex(), comp),
                           'transparency_case', case, expected=res[1], observed=res[0])
@@ -260,8 +260,28 @@ def transparency_task(ctx, cases):
 DRIVERS = {'eval_lines': eval_lines, 'char_case': char_case, 'transparency_case': transparency_case}
 
 
-def transparency_cases():
+def batch_cases():
+    """many constant-using lines in ONE program (state carried from line to line must not matter): all register templates with two different aliases
+    alternating, and all integer templates, against the same program written with literals"""
     cases = []
+    defs = ['R = x8', 'Q = x9', 'RR = s0', 'K = 5']
+    regs = [t for t in REG_TEMPLATES if 'L0' not in t]
+    for names, lits in ((('R', 'Q'), ('x8', 'x9')), (('Q', 'RR'), ('x9', 'x8'))):
+        for rot in range(3):
+            a = [t.replace('{}', names[(i + rot) % 2]) if (i + rot) % 3 else t.replace('{}', lits[i % 2]) for i, t in enumerate(regs)]
+            b = [t.replace('{}', lits[(i + rot) % 2]) if (i + rot) % 3 else t.replace('{}', lits[i % 2]) for i, t in enumerate(regs)]
+            for chunk in range(0, len(a), 12):
+                cases.append(dict(kind='reg-batch', defs=defs, with_const='\n'.join(a[chunk:chunk + 12]), literal='\n'.join(b[chunk:chunk + 12])))
+    ints = [(t, v) for t, v in INT_TEMPLATES if 'L0' not in t and not t.startswith('c.j') and not t.startswith('c.b')]
+    for chunk in range(0, len(ints), 10):
+        sub = ints[chunk:chunk + 10]
+        d = ['K%d = %d' % (i, v) for i, (t, v) in enumerate(sub)]
+        cases.append(dict(kind='int-batch', defs=d, with_const='\n'.join(t.format('K%d' % i) for i, (t, v) in enumerate(sub)), literal='\n'.join(t.format(v) for t, v in sub)))
+    return cases
+
+
+def transparency_cases():
+    cases = batch_cases()
     for tmpl, v in INT_TEMPLATES:
         lit = tmpl.format(v)
         cases.append(dict(kind='int', defs=['K = %d' % v], with_const=tmpl.format('K'), literal=lit))
